@@ -2749,7 +2749,13 @@ impl Node for XmlDocumentType {
     }
 
     fn parent_node(&self) -> Option<XmlNode> {
-        Some(XmlDocument::from(self.declaration.borrow().parent()).as_node())
+        // A document type that was removed from its document has no parent.
+        let document = XmlDocument::from(self.declaration.borrow().parent());
+        let id = self.declaration.borrow().id();
+        document
+            .doc_type()
+            .filter(|v| v.declaration.borrow().id() == id)
+            .map(|_| document.as_node())
     }
 
     fn child_nodes(&self) -> XmlNodeList {
